@@ -18,6 +18,7 @@
 #include <deque>
 #include <dlfcn.h>
 #include <map>
+#include <set>
 #include <sys/epoll.h>
 #include <sys/sendfile.h>
 #include <sys/socket.h>
@@ -69,6 +70,7 @@ namespace lp
         std::map<int, int> release_in;               // fd -> loop steps until the harness should release it (from the plan)
         uint64_t plan_used = 0;                      // plan entries consumed (non-default answers actually hit)
         std::map<std::pair<int, int>, epoll_event> interest; // (epfd, fd) -> last registered event
+        std::set<std::pair<int, int>> oneshot_spent;         // one-shot registrations that have reported an event since their last epoll_ctl
         std::vector<SendRecord> sends;               // every write call observed
         std::map<int, int> consecutive_block;        // fd -> would-block answers since the last epoll_wait
         int max_consecutive_block = 0;
@@ -137,6 +139,13 @@ int epoll_wait(int epfd, struct epoll_event* evs, int maxev, int timeout)
             return pos(a) < pos(b);
         });
     }
+    for (int i = 0; i < n; ++i)
+    {
+        int fd  = (int)(evs[i].data.u64 & 0xffffffffu);
+        auto it = w.interest.find({ epfd, fd });
+        if (it != w.interest.end() && (it->second.events & EPOLLONESHOT))
+            w.oneshot_spent.insert({ epfd, fd }); // (disabled in the kernel until the application's next epoll_ctl)
+    }
     w.batch_done = true;
     w.had_events = true;
     return n;
@@ -150,6 +159,7 @@ int epoll_ctl(int epfd, int op, int fd, struct epoll_event* ev)
         w.interest.erase({ epfd, fd });
     else if (ev)
         w.interest[{ epfd, fd }] = *ev;
+    w.oneshot_spent.erase({ epfd, fd });
     return fn(epfd, op, fd, ev);
 }
 
@@ -345,7 +355,7 @@ namespace lp
             w.held[fd] = false;
             static auto ctl = real<int (*)(int, int, int, epoll_event*)>("epoll_ctl");
             for (auto& kv : w.interest)
-                if (kv.first.second == fd)
+                if (kv.first.second == fd && !w.oneshot_spent.count(kv.first))
                 {
                     epoll_event ev = kv.second;
                     ctl(kv.first.first, EPOLL_CTL_MOD, fd, &ev);
